@@ -40,7 +40,8 @@ type op struct {
 	Pfx   string `json:"prefix,omitempty"`
 	Delim string `json:"delim,omitempty"`
 	Range string `json:"range,omitempty"`
-	Who   int    `json:"who,omitempty"` // 0 root, 1 alice (user), 2 carol (userplus)
+	Who   int    `json:"who,omitempty"`  // 0 root, 1 alice (user), 2 carol (userplus)
+	Mark  int    `json:"mark,omitempty"` // mpulist: 0 no markers, 1 key-marker = key Src, 2 key-marker and upload-id-marker (the id of the upload on key Src, if any), 3 upload-id-marker alone
 }
 
 type caseA struct {
@@ -632,6 +633,18 @@ func step(s *side, bkt string, o op) ([]*s3c.Resp, error) {
 		if o.Delim != "" {
 			q = append(q, s3c.KV{K: "delimiter", V: o.Delim})
 		}
+		if o.Mark > 0 {
+			id := "00000000-0000-4000-8000-000000000000"
+			if u := s.uploads[o.Src%len(keyNames)]; u != nil {
+				id = u.id
+			}
+			if o.Mark != 3 {
+				q = append(q, s3c.KV{K: "key-marker", V: keyNames[o.Src%len(keyNames)]})
+			}
+			if o.Mark != 1 {
+				q = append(q, s3c.KV{K: "upload-id-marker", V: id})
+			}
+		}
 		return one(cl.Call("GET", "/"+bkt, q, nil, nil))
 	}
 	return nil, nil
@@ -835,6 +848,10 @@ func opsGen(thorough bool) *rapid.Generator[[]op] {
 				o.Max = rapid.SampledFrom([]int{0, 0, 1, 1, 2, 1000, -1}).Draw(t, "max")
 				o.Pfx = rapid.SampledFrom([]string{"", "", "dir/", "d", "zz", "ü"}).Draw(t, "prefix")
 				o.Delim = rapid.SampledFrom([]string{"", "/", "/"}).Draw(t, "delim")
+				if o.Kind == "mpulist" {
+					o.Mark = rapid.SampledFrom([]int{0, 0, 1, 1, 2, 3}).Draw(t, "mark")
+					o.Src = rapid.IntRange(0, len(keyNames)-1).Draw(t, "mark_key")
+				}
 			case "mpuseq":
 				// a whole upload on one key: create, parts (uploaded or copied), optional listings, an ending
 				who := o.Who
